@@ -18,7 +18,7 @@ fn core() -> &'static Vec<Prog> {
         for &so in &STORE_ORDS {
             for &lo in &LOAD_ORDS {
                 for spin_hint in [false, true] {
-                    let aw = |loc, ord| Op::Await { loc, ord, spin_hint, min: 1 };
+                    let aw = |loc, ord| Op::Await { loc, ord, spin_hint, min: 1, ann: None };
                     // flag written once; data before it
                     v.push(Prog { nlocs: 2, pre: vec![], threads: vec![vec![aw(0, lo), ld(1, Rlx)], vec![st(1, 5, Rlx), st(0, 1, so)]] });
                     // awaited location written twice: both exit values must be explored
@@ -32,10 +32,21 @@ fn core() -> &'static Vec<Prog> {
                 }
             }
         }
+        // loops with a body that announces the wait (`w.store(1)` after a failed check): another thread sees both the
+        // announcement and what the waiter does after the loop. The first one is the pinned witness of the known finding.
+        for &lo in &LOAD_ORDS {
+            for spin_hint in [false, true] {
+                let awa = |loc, ord, w| Op::Await { loc, ord, spin_hint, min: 1, ann: Some(w) };
+                v.push(Prog { nlocs: 3, pre: vec![], threads: vec![vec![ld(0, Sc), ld(2, Rlx)], vec![awa(1, lo, 2), st(0, 7, Sc)], vec![st(1, 42, Sc)]] });
+                v.push(Prog { nlocs: 3, pre: vec![], threads: vec![vec![st(1, 5, Rlx), st(0, 1, Rel)], vec![awa(0, lo, 2), ld(1, Rlx)], vec![ld(2, Rlx), ld(0, Rlx)]] });
+                v.push(Prog { nlocs: 2, pre: vec![], threads: vec![vec![ld(1, Rlx), st(0, 1, Rel), ld(1, Acq)], vec![awa(0, lo, 1)]] });
+                v.push(Prog { nlocs: 2, pre: vec![], threads: vec![vec![awa(0, lo, 1), ld(1, Rlx)], vec![ld(1, Rlx), st(0, 1, Rlx)]] });
+            }
+        }
         // never-true loops: must be reported, not silently cut off
-        v.push(Prog { nlocs: 1, pre: vec![], threads: vec![vec![Op::Await { loc: 0, ord: Acq, spin_hint: false, min: 1 }], vec![ld(0, Rlx)]] });
-        v.push(Prog { nlocs: 2, pre: vec![], threads: vec![vec![Op::Await { loc: 0, ord: Rlx, spin_hint: true, min: 1 }], vec![st(1, 1, Rel)]] });
-        v.push(Prog { nlocs: 1, pre: vec![], threads: vec![vec![], vec![Op::Await { loc: 0, ord: Sc, spin_hint: false, min: 1 }]] });
+        v.push(Prog { nlocs: 1, pre: vec![], threads: vec![vec![Op::Await { loc: 0, ord: Acq, spin_hint: false, min: 1, ann: None }], vec![ld(0, Rlx)]] });
+        v.push(Prog { nlocs: 2, pre: vec![], threads: vec![vec![Op::Await { loc: 0, ord: Rlx, spin_hint: true, min: 1, ann: None }], vec![st(1, 1, Rel)]] });
+        v.push(Prog { nlocs: 1, pre: vec![], threads: vec![vec![], vec![Op::Await { loc: 0, ord: Sc, spin_hint: false, min: 1, ann: None }]] });
         v
     })
 }
@@ -57,11 +68,26 @@ pub fn prog_at(_tier: u8, seed: u64, idx: usize) -> Prog {
         let waiter = rng.below(nt);
         let loc = rng.below(2) as u8;
         let pos = rng.below(p.threads[waiter].len() + 1);
-        p.threads[waiter].insert(pos, Op::Await { loc, ord: *rng.pick(&LOAD_ORDS), spin_hint: rng.chance(1, 4), min: 1 });
+        p.threads[waiter].insert(pos, Op::Await { loc, ord: *rng.pick(&LOAD_ORDS), spin_hint: rng.chance(1, 4), min: 1, ann: None });
         let writer = (waiter + 1 + rng.below(nt - 1)) % nt;
         if rng.chance(7, 8) {
             let wpos = rng.below(p.threads[writer].len() + 1);
             p.threads[writer].insert(wpos, Op::Store { loc, val: 40 + writer as u64, ord: *rng.pick(&STORE_ORDS) });
+        }
+        // a loop body that announces the wait on a location of its own, read by another thread; every spin stores again,
+        // and a spin needs a step of another thread in between: with at most 5 foreign operations the announcements stay
+        // within loom's store history (MAX_ATOMIC_HISTORY)
+        let foreign: usize = p.threads.iter().enumerate().filter(|(t, _)| *t != waiter).map(|(_, o)| o.len()).sum();
+        if foreign <= 4 && rng.chance(1, 3) {
+            p.nlocs = 3;
+            for o in p.threads[waiter].iter_mut() {
+                if let Op::Await { ann, .. } = o {
+                    *ann = Some(2);
+                }
+            }
+            let reader = (waiter + 1 + rng.below(nt - 1)) % nt;
+            let rpos = rng.below(p.threads[reader].len() + 1);
+            p.threads[reader].insert(rpos, Op::Load { loc: 2, ord: *rng.pick(&LOAD_ORDS) });
         }
         if p.stores_per_loc_ok(5) {
             return p;
@@ -82,8 +108,13 @@ pub fn judge(p: &Prog, rec: &mut Rec, tier: u8) {
     rec.prog = p.s();
     rec.extra = json!({"family": "spin"});
     let (sc, stuck) = outcomes_sc(p);
-    let cfg = Cfg { iter_cap: if tier == 0 { 150_000 } else { 600_000 }, max_branches: Some(300), ..Default::default() };
-    let r = run(p, &cfg);
+    let has_ann = p.threads.iter().flatten().any(|o| matches!(o, Op::Await { ann: Some(_), .. }));
+    let cfg = Cfg { iter_cap: if tier == 0 { 150_000 } else { 600_000 }, max_branches: Some(300), record_spun: true, ..Default::default() };
+    let mut r = run(p, &cfg);
+    // outcomes as loom produced them, with the "spun at least once" bit of every await; the checks against the plain
+    // reference use the values alone
+    let with_bits = std::mem::take(&mut r.outcomes);
+    r.outcomes = with_bits.iter().map(|o| o.iter().map(|v| if *v == u64::MAX { *v } else { v & !SPUN_BIT }).collect()).collect();
     rec.runs = 1;
     rec.iters = r.iters as u64;
     rec.events = r.events as u64;
@@ -105,6 +136,11 @@ pub fn judge(p: &Prog, rec: &mut Rec, tier: u8) {
         match k {
             Some(PanicKind::BranchLimit) => rec.v("spin_no_progress", "", "the awaited condition is established in every execution, yet the model hit the branch limit".to_string()),
             Some(other) => rec.v("unexpected_panic", other.short(), r.panic.clone().unwrap_or_default()),
+            None if has_ann => {
+                // a loop body publishes "spun": only the references that distinguish spun from not spun apply
+                rec.nontrivial = true;
+                spun_check(p, &with_bits, rec, true);
+            }
             None => {
                 let mut st = Stats { budget: 400_000, ..Default::default() };
                 match allowed(p, Variant::Strong, &mut st) {
@@ -140,6 +176,9 @@ pub fn judge(p: &Prog, rec: &mut Rec, tier: u8) {
                         rec.v("spin_forbidden_exit", "", format!("the loop exited / continued with values the model forbids: {}", fmt_set(&extra, 6)));
                     }
                 }
+                if rec.viol.is_empty() {
+                    spun_check(p, &with_bits, rec, false);
+                }
             }
         }
     }
@@ -148,6 +187,237 @@ pub fn judge(p: &Prog, rec: &mut Rec, tier: u8) {
     }
     if rec.idx % 23 == 0 {
         rec.extra = json!({"family": "spin", "iterations": r.iters, "condition_can_stay_false": stuck, "loom_outcomes": fmt_set(&r.outcomes, 12), "loom_panic": r.panic.as_ref().map(|m| m.lines().next().unwrap_or("").to_string())});
+    }
+}
+
+/// The number of failed checks is something the program can count (and a loop body can publish it, see `Await::ann`),
+/// so "spun at least once" belongs to the combination of values the program continues with. For every set S of awaits,
+/// the program in which each await of S is preceded by one load (same ordering) that returns a value failing the check
+/// (followed by the loop body's store, if it has one) is the reference for the outcomes in which exactly the awaits of
+/// S spun: an execution with more failed checks stays consistent when all but one of them are deleted, so one failed
+/// load is both necessary and sufficient.
+fn note(op: &Op, rv: Option<u64>, seen: &mut [BTreeSet<u64>]) {
+    match *op {
+        Op::Store { loc, val, .. } => {
+            seen[loc as usize].insert(val);
+        }
+        Op::Swap { loc, val, .. } => {
+            seen[loc as usize].insert(val);
+            seen[loc as usize].extend(rv);
+        }
+        Op::FetchAdd { loc, add, .. } => {
+            if let Some(r) = rv {
+                seen[loc as usize].insert(r);
+                seen[loc as usize].insert(r.wrapping_add(add));
+            }
+        }
+        Op::Cas { loc, new, .. } => {
+            seen[loc as usize].insert(new);
+            seen[loc as usize].extend(rv);
+        }
+        Op::Load { loc, .. } | Op::Await { loc, .. } => {
+            seen[loc as usize].extend(rv);
+        }
+        _ => {}
+    }
+}
+
+pub const KNOWN_SPUN_SIG: &str = "other_thread_reads_what_the_waiter_wrote_after_it_spun";
+
+fn spun_check(p: &Prog, with_bits: &BTreeSet<Vec<u64>>, rec: &mut Rec, include_empty: bool) {
+    let n_aw = p.threads.iter().flatten().filter(|o| matches!(o, Op::Await { .. })).count();
+    if n_aw == 0 || n_aw > 2 {
+        return;
+    }
+    // thread of every position of p's outcome vector (final values: usize::MAX)
+    let mut pos_thread: Vec<usize> = p.pre.iter().filter(|o| o.returns()).map(|_| 0).collect();
+    for (t, ops) in p.threads.iter().enumerate() {
+        pos_thread.extend(ops.iter().filter(|o| o.returns()).map(|_| t));
+    }
+    for mask in (if include_empty { 0u32 } else { 1 })..(1 << n_aw) {
+        // q: the reference program; role of every op of q: 0 ordinary, 1 inserted failed load, 2 await that spun, 3 inserted body store
+        let mut q = p.clone();
+        let mut roles: Vec<Vec<u8>> = Vec::new();
+        let mut k = 0;
+        let mut spun_threads: Vec<usize> = Vec::new();
+        for (t, ops) in p.threads.iter().enumerate() {
+            let (mut nq, mut nr) = (Vec::new(), Vec::new());
+            for o in ops {
+                if let Op::Await { loc, ord, ann, .. } = *o {
+                    if mask & (1 << k) != 0 {
+                        nq.push(Op::Load { loc, ord });
+                        nr.push(1);
+                        if let Some(w) = ann {
+                            nq.push(Op::Store { loc: w, val: 1, ord: Ord_::Rlx });
+                            nr.push(3);
+                        }
+                        nq.push(*o);
+                        nr.push(2);
+                        spun_threads.push(t);
+                    } else {
+                        nq.push(*o);
+                        nr.push(0);
+                    }
+                    k += 1;
+                } else {
+                    nq.push(*o);
+                    nr.push(0);
+                }
+            }
+            q.threads[t] = nq;
+            roles.push(nr);
+        }
+        // outcome positions of q: pre, thread 0, thread 1, ... (returning ops), then the final values
+        let mut kinds: Vec<u8> = q.pre.iter().filter(|o| o.returns()).map(|_| 0).collect();
+        let mut mins: Vec<u64> = vec![0; kinds.len()];
+        let mut posmap: std::collections::HashMap<(usize, usize), usize> = std::collections::HashMap::new();
+        for (t, ops) in q.threads.iter().enumerate() {
+            for (i, o) in ops.iter().enumerate() {
+                if o.returns() {
+                    posmap.insert((t, i), kinds.len());
+                    kinds.push(roles[t][i]);
+                    mins.push(if roles[t][i] == 1 { ops[i + 1..].iter().find_map(|x| if let Op::Await { min, .. } = x { Some(*min) } else { None }).unwrap_or(1) } else { 0 });
+                }
+            }
+        }
+        let map = |set: &BTreeSet<Vec<u64>>| -> BTreeSet<Vec<u64>> {
+            let mut out = BTreeSet::new();
+            'o: for o in set {
+                let mut v = Vec::with_capacity(o.len());
+                for (k, x) in o.iter().enumerate() {
+                    match kinds.get(k).copied().unwrap_or(0) {
+                        1 => {
+                            if *x >= mins[k] {
+                                continue 'o; // the first check succeeded: not an execution of this reference
+                            }
+                        }
+                        2 => v.push(*x | SPUN_BIT),
+                        _ => v.push(*x),
+                    }
+                }
+                out.insert(v);
+            }
+            out
+        };
+        // loom's documented yield rule: once a thread has yielded, its loads are not offered a store the thread itself
+        // created or read before that yield (when a newer store exists). Combinations that need such a read after the
+        // spin are therefore not demanded (they stay allowed): the waiter reads, at or after the await, a value it wrote
+        // or read on that location before (main also created the initial values).
+        let exempt = |o: &Vec<u64>| -> bool {
+            for (t, rs) in roles.iter().enumerate() {
+                for (qi, _) in rs.iter().enumerate().filter(|(_, r)| **r == 2) {
+                    let mut seen: Vec<BTreeSet<u64>> = vec![BTreeSet::new(); q.nlocs as usize];
+                    if t == 0 {
+                        for s in seen.iter_mut() {
+                            s.insert(0);
+                        }
+                        let mut k = 0;
+                        for op in &q.pre {
+                            let rv = if op.returns() {
+                                k += 1;
+                                Some(o[k - 1])
+                            } else {
+                                None
+                            };
+                            note(op, rv, &mut seen);
+                        }
+                    }
+                    for (i, op) in q.threads[t].iter().enumerate().take(qi) {
+                        note(op, posmap.get(&(t, i)).map(|k| o[*k]), &mut seen);
+                    }
+                    for (i, op) in q.threads[t].iter().enumerate().skip(qi) {
+                        if let (Some(k), Some(loc)) = (posmap.get(&(t, i)), op.loc()) {
+                            if seen[loc as usize].contains(&o[*k]) {
+                                return true;
+                            }
+                        }
+                        note(op, posmap.get(&(t, i)).map(|k| o[*k]), &mut seen);
+                    }
+                }
+            }
+            false
+        };
+        let bits_of = |o: &Vec<u64>| -> Vec<bool> { o.iter().map(|x| *x != u64::MAX && x & SPUN_BIT != 0).collect() };
+        let mut want: Vec<bool> = kinds.iter().filter(|k| **k != 1).map(|k| *k == 2).collect();
+        want.resize(want.len() + p.nlocs as usize, false);
+        let same_bits: BTreeSet<Vec<u64>> = with_bits.iter().filter(|o| bits_of(o) == want).cloned().collect();
+        // known finding (a backtrack request aimed at a thread that has yielded is dropped): what is lost is the
+        // combination of "this waiter spun" with another thread's access that comes after something the waiter did after
+        // spinning. History signature: another thread reads a value that a spun waiter wrote in its loop body or after the loop.
+        let reads_waiters_later_write = |o: &Vec<u64>| -> bool {
+            for (t, rs) in roles.iter().enumerate() {
+                let first = match rs.iter().position(|r| *r == 1) {
+                    Some(i) => i,
+                    None => continue,
+                };
+                let mut written: Vec<BTreeSet<u64>> = vec![BTreeSet::new(); q.nlocs as usize];
+                for (i, op) in q.threads[t].iter().enumerate().skip(first) {
+                    let rv = posmap.get(&(t, i)).map(|k| o[*k]);
+                    match *op {
+                        Op::Store { loc, val, .. } | Op::Swap { loc, val, .. } => {
+                            written[loc as usize].insert(val);
+                        }
+                        Op::Cas { loc, exp, new, .. } => {
+                            if rv == Some(exp) {
+                                written[loc as usize].insert(new);
+                            }
+                        }
+                        Op::FetchAdd { loc, add, .. } => {
+                            if let Some(r) = rv {
+                                written[loc as usize].insert(r.wrapping_add(add));
+                            }
+                        }
+                        _ => {}
+                    }
+                }
+                for (u, ops) in q.threads.iter().enumerate() {
+                    if u == t {
+                        continue;
+                    }
+                    for (i, op) in ops.iter().enumerate() {
+                        if let (Some(k), Some(loc)) = (posmap.get(&(u, i)), op.loc()) {
+                            if written[loc as usize].contains(&o[*k]) {
+                                return true;
+                            }
+                        }
+                    }
+                }
+            }
+            false
+        };
+        let mut st = Stats { budget: 400_000, ..Default::default() };
+        let strong_q: BTreeSet<Vec<u64>> = match allowed(&q, Variant::Strong, &mut st) {
+            Ok(s) => s.into_iter().filter(|o| !exempt(o)).collect(),
+            Err(Budget) => continue,
+        };
+        let (mut known, mut other) = (BTreeSet::new(), BTreeSet::new());
+        for o in &strong_q {
+            let one: BTreeSet<Vec<u64>> = std::iter::once(o.clone()).collect();
+            for m in map(&one) {
+                if !same_bits.contains(&m) {
+                    if mask != 0 && reads_waiters_later_write(o) {
+                        known.insert(m);
+                    } else {
+                        other.insert(m);
+                    }
+                }
+            }
+        }
+        // a combination reachable through a known-class and through another reference execution counts as the latter
+        known.retain(|m| !other.contains(m));
+        for (part, sig) in [(known, KNOWN_SPUN_SIG), (other, if mask == 0 { "without_spinning" } else { "after_spinning" })] {
+            if !part.is_empty() {
+                rec.v("spin_missing_exit", sig, format!("combinations never produced by an execution in which {} (value | 2^40 marks an await that failed its check at least once): {} ; loom produced {}", if mask == 0 { "no loop spun" } else { "the loop spun" }, fmt_set(&part, 6), fmt_set(with_bits, 12)));
+            }
+        }
+        let mut st = Stats { budget: 400_000, ..Default::default() };
+        if let Ok(weak) = allowed(&q, Variant::Weak, &mut st) {
+            let weak = map(&weak);
+            let extra: BTreeSet<_> = same_bits.difference(&weak).cloned().collect();
+            if !extra.is_empty() {
+                rec.v("spin_forbidden_exit", if mask == 0 { "without_spinning" } else { "after_spinning" }, format!("the loop exited / the program continued with values the model forbids{}: {}", if mask == 0 { "" } else { " after spinning" }, fmt_set(&extra, 6)));
+            }
+        }
     }
 }
 
